@@ -1115,7 +1115,174 @@ func replayBehaviour(file string, seed int64) ([]trace.Ev, runStat, []string) {
 	return evs, r.st, notes
 }
 
+// ---------------------------------------------------------------------------------------- epoch-level schedules
+
+type epochStep struct {
+	V   string `json:"v"`
+	C   []int  `json:"c"`
+	Bit string `json:"bit"`
+}
+type epochSched struct {
+	Variant string      `json:"variant"`
+	Steps   []epochStep `json:"steps"`
+}
+
+// replayEpochSched drives the real nodes through a vote order exported from BFTEpoch.tla: honest validator h<i> is
+// node i-1 and packs through the real doPack (its own ShouldVote decides the COM bit) on the branch and in the round
+// the schedule names; the Byzantine validator (3) opens every round with a COM block and fills rounds up, as the
+// model's ByzMax adversary does.  Rounds are epochs of 4 blocks; forks are at round boundaries.
+func replayEpochSched(file string, seed int64) ([]trace.Ev, runStat, []string) {
+	raw, err := os.ReadFile(file)
+	must(err)
+	var sc epochSched
+	must(json.Unmarshal(raw, &sc))
+	const E = 4
+	r := newRec(config{4, 3, false, E}, "epoch-schedule", seed)
+	r.st.Cfg += ":" + filepath.Base(file) + ":" + sc.Variant
+	var notes []string
+	key := func(c []int) string { return fmt.Sprint(c) }
+	tips := map[string]*block.Block{key(nil): r.net.B0}
+	count := map[string]int{key(nil): 0}
+	opened := map[string]bool{key(nil): true}
+	capOf := func(c []int) int {
+		if len(c) == 0 {
+			return E - 1 // genesis is the first block of the first round
+		}
+		return E
+	}
+	spread := func(blk *block.Block, except int) {
+		for i := range r.net.Nodes {
+			if i != except {
+				r.deliver(i, blk)
+			}
+		}
+	}
+	byz := func(c []int) bool {
+		// sibling rounds open on the same parent with the same signer: a later slot makes them different blocks
+		var minTime uint64
+		if len(c) > 0 && count[key(c)] == 0 && c[len(c)-1] > 1 {
+			minTime = tips[key(c)].Header().Timestamp() + thor.BlockInterval()*uint64(1+8*(c[len(c)-1]-1))
+		}
+		blk, err := r.net.Mint(tips[key(c)].Header().ID(), 3, len(c) > 0, minTime)
+		if err != nil {
+			blk = nil
+		} else {
+			r.noteBlock(blk)
+		}
+		if blk == nil {
+			notes = append(notes, "cannot mint the Byzantine block of round "+key(c))
+			return false
+		}
+		r.st.ByzBlocks++
+		tips[key(c)] = blk
+		count[key(c)]++
+		spread(blk, -1)
+		return true
+	}
+	fill := func(c []int) bool {
+		for count[key(c)] < capOf(c) {
+			if !byz(c) {
+				return false
+			}
+		}
+		return true
+	}
+	var open func(c []int) bool
+	open = func(c []int) bool {
+		if opened[key(c)] {
+			return true
+		}
+		p := c[:len(c)-1]
+		if !open(p) || !fill(p) {
+			return false
+		}
+		tips[key(c)] = tips[key(p)]
+		count[key(c)] = 0
+		opened[key(c)] = true
+		return byz(c) // the adversary is present in every round from its first block on
+	}
+	hon := map[string]int{"h1": 0, "h2": 1, "h3": 2}
+	for k, st := range sc.Steps {
+		v, ok := hon[st.V]
+		if !ok {
+			continue // explicit Byzantine votes of the model are subsumed by the filling adversary
+		}
+		if !open(st.C) {
+			notes = append(notes, fmt.Sprintf("step %d: round %v cannot be opened; schedule cut", k, st.C))
+			break
+		}
+		if count[key(st.C)] >= capOf(st.C) {
+			notes = append(notes, fmt.Sprintf("step %d: round %v is full; schedule cut", k, st.C))
+			break
+		}
+		n := r.net.Nodes[v]
+		parent, err := n.Repo.GetBlockSummary(tips[key(st.C)].Header().ID())
+		if err != nil {
+			// the node refused that branch (finality): the vote cannot be cast, which is what safety wants
+			notes = append(notes, fmt.Sprintf("step %d: %s does not hold the tip of round %v (refused by its finality)", k, st.V, st.C))
+			continue
+		}
+		// an honest node packs on its best block, which always extends its finalized checkpoint: a vote the model
+		// places on a branch the node has finalized against cannot be cast
+		if ok, err := n.BFT.Accepts(parent.Header.ID()); err != nil || !ok {
+			notes = append(notes, fmt.Sprintf("step %d: round %v conflicts with what %s finalized (refused by its finality)", k, st.C, st.V))
+			continue
+		}
+		blk, err := n.ProposeOn(parent, 0)
+		if err != nil {
+			r.st.Errors = append(r.st.Errors, fmt.Sprintf("propose n%d: %v", v, err))
+			r.evs = append(r.evs, trace.Ev{"e": "Error", "n": v, "what": "propose", "err": err.Error()})
+			break
+		}
+		if err := r.net.GodLearn(blk); err != nil {
+			fmt.Println("HARNESS-ERROR godlearn:", err)
+			os.Exit(3)
+		}
+		r.noteBlock(blk)
+		r.commitEv(n, blk, true)
+		tips[key(st.C)] = blk
+		count[key(st.C)]++
+		spread(blk, v)
+		if sc.Variant == "asis" && blk.Header().COM() != (st.Bit == "c") {
+			notes = append(notes, fmt.Sprintf("SPEC-DISAGREE step %d: COM bit of %s's block in round %v is %v, BFTEpoch.tla says %s", k, st.V, st.C, blk.Header().COM(), st.Bit))
+		}
+	}
+	// conclude every open round so that its store point exists and finality can move
+	var keys [][]int
+	for k := range opened {
+		var c []int
+		if k != "[]" {
+			for _, f := range strings.Fields(strings.Trim(k, "[]")) {
+				var x int
+				fmt.Sscan(f, &x)
+				c = append(c, x)
+			}
+		}
+		keys = append(keys, c)
+	}
+	sort.Slice(keys, func(i, j int) bool { return len(keys[i]) < len(keys[j]) || (len(keys[i]) == len(keys[j]) && key(keys[i]) < key(keys[j])) })
+	for _, c := range keys {
+		fill(c)
+	}
+	// safety on the real nodes: finalized checkpoints pairwise on one chain
+	for i := range r.net.Nodes {
+		for j := i + 1; j < len(r.net.Nodes); j++ {
+			a, b := r.net.Nodes[i].BFT.Finalized(), r.net.Nodes[j].BFT.Finalized()
+			if block.Number(a) > block.Number(b) {
+				a, b = b, a
+			}
+			ok, err := r.net.God.Repo.NewChain(b).HasBlock(a)
+			if err != nil || !ok {
+				notes = append(notes, fmt.Sprintf("FINALITY-CONFLICT nodes %d and %d finalized conflicting checkpoints (%d, %d)", i, j, block.Number(a), block.Number(b)))
+			}
+		}
+	}
+	evs := r.finish()
+	return evs, r.st, notes
+}
+
 func main() {
+	epochDir := flag.String("epochsched", "", "directory with sched_*.json vote orders exported from BFTEpoch.tla")
 	replayDir := flag.String("replay", "", "directory with beh_*.json behaviours exported from MCBFTSim")
 	out := flag.String("out", ".", "output directory")
 	runs := flag.Int("runs", 10, "number of runs")
@@ -1129,6 +1296,28 @@ func main() {
 	}
 	var all []trace.Ev
 	var stats []runStat
+	if *epochDir != "" {
+		files, _ := filepath.Glob(filepath.Join(*epochDir, "sched_*.json"))
+		sort.Strings(files)
+		var allNotes []string
+		for i, f := range files {
+			evs, st, notes := replayEpochSched(f, *seed*1000003+int64(i))
+			all = append(all, evs...)
+			stats = append(stats, st)
+			for _, n := range notes {
+				allNotes = append(allNotes, filepath.Base(f)+": "+n)
+			}
+		}
+		must(os.MkdirAll(*out, 0o755))
+		must(trace.WriteNDJSON(filepath.Join(*out, "trace.ndjson"), all))
+		f, err := os.Create(filepath.Join(*out, "runs.json"))
+		must(err)
+		must(json.NewEncoder(f).Encode(stats))
+		f.Close()
+		nb, _ := json.Marshal(map[string]any{"runs": len(stats), "events": len(all), "notes": allNotes})
+		fmt.Println(string(nb))
+		return
+	}
 	if *replayDir != "" {
 		files, _ := filepath.Glob(filepath.Join(*replayDir, "beh_*.json"))
 		sort.Strings(files)
